@@ -42,7 +42,7 @@
    hang-Storage.read_records are no longer accepted) or not (og_current, for which
    C07_current_log_position_refuted shows the violation). *)
 From Agdb Require Import Bytes Utf8 Codec DbValue ValueIndex ValueIndexProofs OpenFile OpenFileProofs ValueLoadProofs.
-From Agdb Require Import Records StorageSpec DbModel LoadOutcome LoadOutcomeProofs.
+From Agdb Require Import Records StorageSpec DbModel StoredDb StoredDbRep StoredDbExampleBase LoadOutcome LoadOutcomeProofs LoadOutcomeAgree LoadOutcomeExample.
 Open Scope N_scope.
 
 Theorem C07_open_total_partial :
@@ -243,3 +243,48 @@ Theorem C07_db_load_total_any_revision :
     end.
 Proof. exact load_outcome_g_total. Qed.
 Print Assumptions C07_db_load_total_any_revision.
+
+(* FULL: on a record store that HOLDS a database (`stored_db`: the relation of C05's L3 theorems) the outcome model
+   loads it, and what it returns is THE database the loader `load_db` of C05_db_reload returns (Leibniz equality), hence
+   equal to the represented one up to sd_eqv — the exact treatment of damaged value indexes, the allocation limit and
+   the order open-then-read change nothing on well-formed stores. *)
+Theorem C07_db_load_agrees_with_C05 :
+  forall (m : vmap) (root : N) (d : db),
+    stored_db (m_get m) root d ->
+    exists d', load_outcome m root = Loaded d' /\ load_db m root = Some d' /\ sd_eqv d d' /\ undo d' = [].
+Proof. intros m root d H. exact (load_outcome_of_stored vg_current m root d H). Qed.
+Print Assumptions C07_db_load_agrees_with_C05.
+
+(* the same for every revision of the value-index checks *)
+Theorem C07_db_load_agrees_with_C05_any_revision :
+  forall (g : vguards) (m : vmap) (root : N) (d : db),
+    stored_db (m_get m) root d ->
+    exists d', load_outcome_g g (lo_limit m) m root = Loaded d' /\ load_db m root = Some d' /\ sd_eqv d d' /\ undo d' = [].
+Proof. exact load_outcome_of_stored. Qed.
+Print Assumptions C07_db_load_agrees_with_C05_any_revision.
+
+(* the model run is the loader PROGRAM run on the record map: nothing in `lo_run` beyond `cp_run sd_step` but the
+   allocation limit *)
+Theorem C07_db_load_run_is_program_run :
+  forall (A : Type) (L : N) (m : vmap) (p : Collections.cprog A),
+    (forall i b, m_get m i = Some b -> lenN b <= L) ->
+    lo_run L p m = lo_of_cres (snd (Collections.cp_run sd_step p m)).
+Proof. intros A L m p H. exact (lo_run_cp_run L m p H). Qed.
+Print Assumptions C07_db_load_run_is_program_run.
+
+(* non-vacuity: every outcome occurs.  The stored example database of C05 (sx_store: index, two nodes, an alias, an
+   edge, long and inline values) loads to itself; ONE damaged byte in it — the type nibble of the first index key, byte
+   23 of the DbVec<DbIndexStorageIndex> record — makes DbImpl::new panic at the listed site (an error with the type
+   check); no root record; a root record of 39 / 40 bytes; a legacy-sized root record whose values table loads. *)
+Example C07_db_load_nonvacuous :
+  load_outcome sx_store 1 = Loaded sx_db /\
+  load_outcome lo_ex_damaged 1 = LPanic /\ lo_open_class lo_ex_damaged 1 = 2 /\
+  load_outcome_g vg_fixed (lo_limit lo_ex_damaged) lo_ex_damaged 1 = LErr /\
+  load_outcome [] 1 = LFresh /\
+  load_outcome [(1, repeat x00 39)] 1 = LErr /\
+  load_outcome lo_ex_legacy 1 = LLegacy.
+Proof.
+  destruct lo_ex_loads as (A & _). destruct lo_ex_panic as (B & C & D). destruct lo_ex_others as (E & F & _ & G & _).
+  repeat split; assumption.
+Qed.
+Print Assumptions C07_db_load_nonvacuous.
